@@ -174,10 +174,20 @@ def run_score(case):
     base = main.current_tt._seconds
     score = OscScore()
     try:
+        rejected = 0
         for t8, content in case['adds']:
+            if content < 0:
+                # a bundle the encoder refuses (un-encodable argument): must leave the score as it was
+                try:
+                    score.add([t8 / 8.0, ['/n_set', 1000, 'amp', object()]])
+                except Exception:
+                    rejected += 1
+                continue
             score.add([t8 / 8.0, ['/n_set', 1000 + content, 'amp', content]])
+        d0 = score.duration
         score.finish(case['tail'] / 8.0)
         lst = score.list
+        d1, d2 = score.duration, score.duration
     except Exception as e:
         return [f'EXC:{type(e).__name__}: {e}'[:200]]
     items = []
@@ -186,7 +196,34 @@ def run_score(case):
         what = 'root' if m[0] == '/g_new' else 'tail' if m[0] == '/c_set' else str(m[3])
         items.append(f'({int(round(b[0] * 8))},{what})')
     ok = len(score.raw) > 0
-    return ['listing [' + ','.join(items) + ']', int(round(base * 8)), ok]
+
+    def f8(x):
+        return 'None' if x is None else str(int(round(x * 8)))
+    return ['listing [' + ','.join(items) + f'] duration {f8(d0)} {f8(d1)} {f8(d2)} refused {rejected}', int(round(base * 8)), ok]
+
+
+def run_ppar(case):
+    """the real Ppar over Pbind children with scripted deltas (k/8), consumed as a stream"""
+    from sc3.seq.patterns.eventpatterns import Ppar, Pbind
+    from sc3.seq.patterns.listpatterns import Pseq
+    from sc3.base import stream as stm
+    from sc3.seq import event as evt
+    try:
+        pp = Ppar(*[Pbind({'delta': Pseq([d / 8.0 for d in ds]), 'child': i}) for i, ds in enumerate(case['rem'])])
+        s = stm.stream(pp)
+        out = []
+        for _ in range(sum(len(d) for d in case['rem']) + 3 * len(case['rem']) + 5):
+            try:
+                e = s.next(evt.event({}))
+            except stm.StopStream:
+                break
+            who = 'r' if evt.is_rest(e) else str(e.get('child'))
+            out.append(f'{who}:{int(round(float(e["delta"]) * 8))}')
+        else:
+            out.append('RUNAWAY')
+        return ['merge ' + ' '.join(out)]
+    except Exception as e:
+        return [f'EXC:{type(e).__name__}: {e}'[:200]]
 
 
 def run(payload):
@@ -203,6 +240,9 @@ def run(payload):
                 continue
             if c.get('kind') == 'score':
                 res.append(run_score(c))
+                continue
+            if c.get('kind') == 'ppar':
+                res.append(run_ppar(c))
                 continue
             res.append(run_shutdown(c))
         else:
